@@ -10,6 +10,13 @@ TRUSTED_BASE = [
     "Go toolchain, sha256/ed25519/AES-GCM, badger, bigcache, protobuf, msgpack libraries: modelled or assumed, not verified",
 ]
 
+LEDGER_ASSUME = [
+    "each public ledger call is one atomic step of the model (all graph/index mutations of a call lie inside one ab.mux.Lock region)",
+    "vertex signature verification is the field `vok` in ledger traces (reported by the implementation's own verifier; the byte-level model of verify is checked under C04)",
+    "hash of a freshly sealed vertex does not collide with a checkpointed vertex (SHA-256 collision freedom)",
+]
+LEDGER_NOT_MODELLED = ["goroutine scheduling inside one call", "badger/bigcache internals", "backup file written by truncate", "wall-clock time stamps (signed content only)"]
+
 PROPS = {
     "C05": {
         "level": "proof",
@@ -22,5 +29,27 @@ PROPS = {
         "partial": [],
         "assumptions": ["model CModel/Spice.lean is spice.go statement for statement; tied by differential traces over the boundary product and by the generated constant"],
         "not_modelled": ["FromFloat / String formatting (not part of the property)"],
+    },
+    "C03": {
+        "level": "proof",
+        "lean_targets": ["Properties.C03"],
+        "namespaces": ["Props.C03"],
+        "required_theorems": ["Props.C03.no_duplicate_vertex", "Props.C03.no_duplicate_transaction", "Props.C03.index_exact",
+                              "Props.C03.index_no_dangling", "Props.C03.readd_rejected", "Props.C03.resubmit_transaction_rejected",
+                              "Props.C03.reproposable", "Props.C03.b2_reachable"],
+        "sections": [{"name": "ledger", "driver": "ledger"}],
+        "partial": ["concurrent duplicates: the pre-lock lookup / locked body interleaving is covered by the atomic re-check in saveTrxInVertex (modelled as indexSave) - no separate interleaving theorem yet",
+                    "truncation and loadDag are not constructors of Reachable yet (their preservation theorems are under C07/C14)"],
+        "assumptions": LEDGER_ASSUME, "not_modelled": LEDGER_NOT_MODELLED,
+    },
+    "C10": {
+        "level": "proof",
+        "lean_targets": ["Properties.C10"],
+        "namespaces": ["Props.C10"],
+        "required_theorems": ["Props.C10.sealing_rules", "Props.C10.genesis_not_to_self", "Props.C10.parked_passed_guards",
+                              "Props.C10.self_sealed_rejected", "Props.C10.empty_rejected", "Props.C10.genesis_issuer_rejected"],
+        "sections": [{"name": "ledger", "driver": "ledger"}],
+        "partial": ["ledgers obtained by loadDag: only 'at most one self-sealed vertex, no empty transaction' is checked by the code; stated under an honest-peer hypothesis in C14"],
+        "assumptions": LEDGER_ASSUME, "not_modelled": LEDGER_NOT_MODELLED,
     },
 }
